@@ -9,6 +9,7 @@ import (
 	"google.golang.org/grpc/codes"
 	"google.golang.org/grpc/status"
 	"google.golang.org/protobuf/proto"
+	"google.golang.org/protobuf/types/known/fieldmaskpb"
 	"google.golang.org/protobuf/types/known/timestamppb"
 
 	"github.com/smart-core-os/sc-api/go/traits"
@@ -308,11 +309,31 @@ func (m *Model) UpdateMode(mode *traits.ElectricMode, opts ...resource.WriteOpti
 }
 
 func (m *Model) updateMode(mode *traits.ElectricMode, opts ...resource.WriteOption) (*traits.ElectricMode, error) {
+	// if this update makes the mode normal, check that there isn't another normal mode
+	if mode.Normal && updatesField(resource.ComputeWriteConfig(opts...).UpdateMask, "normal") {
+		if normal, ok := m.normalMode(); ok && normal.Id != mode.Id {
+			return nil, ErrNormalModeExists
+		}
+	}
+
 	msg, err := m.modes.Update(mode.Id, mode, opts...)
 	if err != nil {
 		return nil, err
 	}
 	return msg.(*traits.ElectricMode), nil
+}
+
+// updatesField returns true if an update using mask will write the given top level field.
+func updatesField(mask *fieldmaskpb.FieldMask, field string) bool {
+	if mask == nil {
+		return true // all fields are updated
+	}
+	for _, path := range mask.GetPaths() {
+		if path == field {
+			return true
+		}
+	}
+	return false
 }
 
 // PullModes subscribes to changes to modes. Creation, modification or deletion of a mode on this device will send
